@@ -13,7 +13,7 @@ ClassObsOK(o, CC2, CT2) ==
           LET T == o.get[k][1] IN
           o.get[k][2] = IF HasT(CC2[o.cls], T) THEN (CHOOSE c \in {CC2[o.cls][i] : i \in 1..Len(CC2[o.cls])} : c[1] = T)[2] ELSE 0
 ObsOK(obs, CC2, CT2, I2) ==
-    /\ {obs.classes[i].cls : i \in 1..Len(obs.classes)} = Classes
+    /\ {obs.classes[i].cls : i \in 1..Len(obs.classes)} \in {Classes, Classes \ {"L"}}      \* L exists once it has been defined
     /\ \A i \in 1..Len(obs.classes) : ClassObsOK(obs.classes[i], CC2, CT2)
     /\ Len(obs.inst) = Len(I2)
     /\ \A i \in 1..Len(I2) : obs.inst[i].tag = I2[i].tag /\ obs.inst[i].comps = I2[i].comps /\ obs.inst[i].cls = I2[i].cls
@@ -31,6 +31,7 @@ TrAttachClass == /\ Ev.op = "attach_class"
 TrDetachClass == /\ Ev.op = "detach_class"
                  /\ \/ Ev.out = "ok" /\ DetachClass(Ev.cls, Ev.T)
                     \/ Ev.out = "ComponentNotFoundError" /\ DetachClassRejected(Ev.cls, Ev.T)
+TrDefine  == Ev.op = "define" /\ Ev.out = "ok" /\ UNCHANGED vars      \* a new class starts with no class components and tag NONE
 TrSetTag  == Ev.op = "set_tag" /\ Ev.out = "ok" /\ SetTag(Ev.cls, Ev.tag)
 TrNew     == Ev.op = "new" /\ Ev.out = "ok" /\ New(Ev.cls, Ev.explicit, Ev.tag)
 TrAttachInst == /\ Ev.op = "attach_inst"
@@ -42,7 +43,7 @@ TrDetachInst == /\ Ev.op = "detach_inst"
 
 TraceInit == Init /\ tid \in 1..Len(Traces) /\ l = 1 /\ dev = {}
 TraceNext == /\ l <= Len(Traces[tid]) /\ l' = l + 1 /\ UNCHANGED <<tid, dev>>
-             /\ (TrAttachClass \/ TrDetachClass \/ TrSetTag \/ TrNew \/ TrAttachInst \/ TrDetachInst)
+             /\ (TrDefine \/ TrAttachClass \/ TrDetachClass \/ TrSetTag \/ TrNew \/ TrAttachInst \/ TrDetachInst)
              /\ ObsOK(Ev.obs, ccomps', ctag', inst')
 TraceSpec == TraceInit /\ [][TraceNext]_tvars
 Accepted == (l = Len(Traces[tid]) + 1) => PrintT(<<"ACCEPT", tid, dev>>)
